@@ -142,7 +142,13 @@ struct World {
             throw std::runtime_error("universe: the copies do not share the txid / differ in wtxid");
         sh.fwd->Set(dm.get());
     }
-    ~World() { sh.fwd->Set(nullptr); }
+    ~World()
+    {
+        sh.fwd->Set(nullptr);
+        // keep the shared node's mempool small (its consistency check runs on every acceptance and walks the whole pool)
+        LOCK2(cs_main, S.pool().cs);
+        for (const char* nme : {"Par", "G"}) if (tx.count(nme)) S.pool().removeRecursive(*tx.at(nme), MemPoolRemovalReason::EXPIRY);
+    }
 
     GenTxid Gtx(const std::string& h) const
     {
@@ -239,19 +245,22 @@ struct World {
         }
         const bool masked = S.pool().exists(tx.at("G")->GetWitnessHash()) || confirmed.count("G");
         UniValue rej(UniValue::VARR), recon(UniValue::VARR), conf(UniValue::VARR), live(UniValue::VOBJ);
+        // the filters are created lazily (1.3 MB each): a filter that does not exist yet contains nothing
+        const auto in_rej = [&](const uint256& u) { return dm->m_lazy_recent_rejects && dm->m_lazy_recent_rejects->contains(u); };
         for (const auto& [h, u] : hash) {
-            if (dm->RecentRejectsFilter().contains(u) && !(masked && h == "T")) rej.push_back(h);
-            if (dm->RecentRejectsReconsiderableFilter().contains(u)) recon.push_back(h);
-            if (dm->RecentConfirmedTransactionsFilter().contains(u)) conf.push_back(h);
+            if (in_rej(u) && !(masked && h == "T")) rej.push_back(h);
+            if (dm->m_lazy_recent_rejects_reconsiderable && dm->m_lazy_recent_rejects_reconsiderable->contains(u)) recon.push_back(h);
+            if (dm->m_lazy_recent_confirmed_transactions && dm->m_lazy_recent_confirmed_transactions->contains(u)) conf.push_back(h);
             std::vector<NodeId> peers; dm->m_txrequest.GetCandidatePeers(u, peers);
             std::set<NodeId> uniq(peers.begin(), peers.end());
             UniValue l(UniValue::VARR); for (NodeId p : uniq) l.push_back((int64_t)p);
             live.pushKV(h, l);
         }
         o.pushKV("pool", pool); o.pushKV("orph", orph); o.pushKV("rej", rej);
-        o.pushKV("rejT", masked ? "na" : (dm->RecentRejectsFilter().contains(hash.at("T")) ? "yes" : "no"));
+        o.pushKV("rejT", masked ? "na" : (in_rej(hash.at("T")) ? "yes" : "no"));
         o.pushKV("recon", recon); o.pushKV("conf", conf); o.pushKV("live", live);
         o.pushKV("ahW", dm->AlreadyHaveTx(Wtxid::FromUint256(hash.at("W")), /*include_reconsiderable=*/true));
+        o.pushKV("ahT", masked ? "na" : (dm->AlreadyHaveTx(Txid::FromUint256(hash.at("T")), /*include_reconsiderable=*/true) ? "yes" : "no"));
         dm->m_txrequest.SanityCheck();
         dm->m_orphanage->SanityCheck();
         return o;
@@ -297,14 +306,28 @@ int main(int argc, char** argv)
                 ++R().steps;
                 R().Count(std::string("act_") + st[i]["a"][0].get_str());
                 if (res.exists("verdict") && res["verdict"].get_str() != "none") R().Count("verdict_" + res["verdict"].get_str());
-                why = JsonDiff(Canon(st[i]["r"]), res, "result");
-                if (!why.empty()) break;
+                // every differing key is reported (with the implementation's value), so that the driver can tell a difference the
+                // property talks about (G / W / T) from one in the bookkeeping around it
+                UniValue keys(UniValue::VARR), obs(UniValue::VOBJ);
+                const UniValue expr = Canon(st[i]["r"]);
+                for (const auto& k : expr.getKeys()) {
+                    if (!res.exists(k) || !JsonDiff(expr[k], res[k], k).empty()) { keys.push_back("result." + k); obs.pushKV("result." + k, res.exists(k) ? res[k] : UniValue()); }
+                }
                 const UniValue have = Canon(w.Project());
                 const UniValue exp = Canon(st[i]["exp"]);
                 for (const auto& k : exp.getKeys()) {
                     if (k == "hid") continue;
-                    why = JsonDiff(exp[k], have[k], "state." + k);
-                    if (!why.empty()) break;
+                    if (k == "live") {
+                        for (const auto& h : exp[k].getKeys()) {
+                            if (!JsonDiff(exp[k][h], have[k][h], h).empty()) { keys.push_back("state.live." + h); obs.pushKV("state.live." + h, have[k][h]); }
+                        }
+                        continue;
+                    }
+                    if (!JsonDiff(exp[k], have[k], k).empty()) { keys.push_back("state." + k); obs.pushKV("state." + k, have[k]); }
+                }
+                if (keys.size() > 0) {
+                    UniValue d(UniValue::VOBJ); d.pushKV("keys", keys); d.pushKV("obs", obs);
+                    why = d.write();
                 }
             }
         } catch (const std::exception& e) { why = std::string("exception: ") + e.what(); }
